@@ -328,6 +328,12 @@ func genC05CaseFor(t *rapid.T, rule string) (c *ScalarCase, class string) {
 		}
 	case "re":
 		p := rapid.SampledFrom(rePatterns).Draw(t, "pattern")
+		if rapid.IntRange(0, 2).Draw(t, "reFamily") == 1 {
+			// one of 700 patterns of a family: a process meets more distinct patterns than any bounded memo of compiled
+			// expressions holds, and meets each of them again later
+			n := rapid.IntRange(1, 700).Draw(t, "reFamilyN")
+			p.pat, p.hit, p.miss = fmt.Sprintf("^k{%d}b$", n), strings.Repeat("k", n)+"b", strings.Repeat("k", n+1)+"b"
+		}
 		item = "re='" + p.pat + "'"
 		switch class {
 		case "member":
